@@ -165,18 +165,18 @@ def make_collab_classes(rt, prog):
         async def on_node_start(self, ctx, node_id):  # noqa: ANN001
             rt.log(e='Ev', r=rtm.CUR_RUN.get(), kind='node_start', n=rtm.short(node_id), err=('noerr',),
                    res=('nores',))
-            await rt.collab_call('ev')
+            await rt.collab_call('ev', rtm.short(node_id))
 
         async def on_node_complete(self, ctx, node_id, error):  # noqa: ANN001
             err = ('noerr',) if error is None else rt.err_token(error)
             rt.log(e='Ev', r=rtm.CUR_RUN.get(), kind='node_complete', n=rtm.short(node_id), err=err,
                    res=('nores',))
-            await rt.collab_call('ev')
+            await rt.collab_call('ev', rtm.short(node_id))
 
     class Store(ArtifactStore):
         async def save(self, node_id, data):  # noqa: ANN001
             rt.log(e='Save', r=rtm.CUR_RUN.get(), n=rtm.short(node_id), v=rt.to_term(data))
-            await rt.collab_call('save')
+            await rt.collab_call('save', rtm.short(node_id))
 
         async def load(self, node_id):  # noqa: ANN001
             raise NotImplementedError
